@@ -153,7 +153,7 @@ func (m *manager) hasLocatorInCache(group module.TransactionGroup, id []byte, ts
 	if _, ok := m.locators[string(id)]; ok {
 		return ok, true
 	}
-	if l := m.cache[group].maxTSInDB; l != 0 && l <= ts {
+	if l := m.cache[group].maxTSInDB; l != 0 && l < ts {
 		return false, true
 	}
 	return false, false
@@ -394,10 +394,10 @@ func (t *tracker) Has(id []byte, ts int64) (bool, error) {
 	t.lock.Lock()
 	defer t.lock.Unlock()
 
-	if ts >= t.list.ts+t.list.th {
-		return false, nil
-	}
-	if t.locators != nil {
+	// A transaction beyond the window of this block can't be in it, but the
+	// ancestors must be asked anyway: their windows may end later (the
+	// threshold can change along the chain).
+	if ts < t.list.ts+t.list.th && t.locators != nil {
 		if _, ok := t.locators[string(id)] ; ok {
 			return true, nil
 		}
